@@ -252,6 +252,15 @@ def gen_fields(rnd, allow_empty=True):
 
 
 def gen_sentence(rnd, exact_only=False, allow_default_kf=False):
+    """Like gen_sentence_raw, but a sentence with two keyframes at the same position (a value step) is only
+    kept when all its numbers are exact: next to a step the one-ulp envelope of the inexact regime is void."""
+    while True:
+        s = gen_sentence_raw(rnd, exact_only, allow_default_kf)
+        if s["exact"] or not any("same-position" in f for f in s["feats"]):
+            return s
+
+
+def gen_sentence_raw(rnd, exact_only=False, allow_default_kf=False):
     """Returns dict(text=macro arguments, twin=builder chain (without the type prefix), exact, feats)."""
     parts = []  # (kind, macro_text, builder_text)
     feats = []
